@@ -562,3 +562,88 @@ Print Assumptions C16_class_fixtures_accepted.
 Theorem C16_class_model_can_panic : class_model_witnesses.
 Proof. exact class_model_witnesses_hold. Qed.
 Print Assumptions C16_class_model_can_panic.
+
+(* ------------------------------------------------------------------------------------------ *)
+(* writer_total, the reader's half: the tree duke::read_class returns satisfies conjuncts of the hypotheses
+   cclass_ok / cfield_ok / cmethod_ok / ccode_ok / cinner_ok of C02_write_class_no_panic, and its lists fit the
+   u16 / u8 counts of the file.  coq/C16/ModelClsTree.v is the reader of ModelClsRead.v returning the numbers it
+   hands to the visitor instead of dropping them (u16ok x := x <= 65535, count_ok l := length l <= 65535,
+   count8_ok l := length l <= 255). *)
+From FB Require Import C16.ModelClsTree C16.TheoryClsTree.
+
+(* u16ok of this file is C02's u16ok (coq/C02/TheoryC4.v, the test inside cclass_ok / cfield_ok / cmethod_ok / ccode_ok /
+   cinner_ok / cmodule_ok) on the Z image of the number *)
+From FB Require C16.TheoryClsTreeC02 C02.TheoryC4.
+Theorem C16_u16ok_is_C02_u16ok : forall x : N, C02.TheoryC4.u16ok (Z.of_N x) = u16ok x.
+Proof. exact C16.TheoryClsTreeC02.u16ok_is_C02_u16ok. Qed.
+Print Assumptions C16_u16ok_is_C02_u16ok.
+
+(* the instrumented reader IS the validated model: erasing the tree gives its outcome, for every visitor *)
+Theorem C16_reader_tree_erases : forall v bytes, erase (read_class_tree_with v bytes) = read_class_with v bytes.
+Proof. exact read_class_tree_erases. Qed.
+Print Assumptions C16_reader_tree_erases.
+
+Theorem C16_reader_tree_accepts_iff : forall bytes, (exists t, read_class_tree bytes = Done t) <-> read_class_out bytes = Done tt.
+Proof. exact read_class_tree_accepts_iff. Qed.
+Print Assumptions C16_reader_tree_accepts_iff.
+
+(* the composed statement, for every visitor *)
+Theorem C16_reader_tree_ranges : forall v bytes t, read_class_tree_with v bytes = Done t -> rtree_ok t = true.
+Proof. exact reader_tree_ranges. Qed.
+Print Assumptions C16_reader_tree_ranges.
+
+(* conjunct by conjunct, for duke::read_class *)
+Theorem C16_reader_class_scalars : forall bytes t, read_class_tree bytes = Done t ->
+  u16ok (t_minor t) && u16ok (t_major t) && u16ok (t_access t) = true.
+Proof. exact reader_class_scalars. Qed.
+Print Assumptions C16_reader_class_scalars.
+
+Theorem C16_reader_interfaces_count : forall bytes t, read_class_tree bytes = Done t ->
+  count_ok (t_interfaces t) && forallb u16ok (t_interfaces t) = true.
+Proof. exact reader_interfaces_count. Qed.
+Print Assumptions C16_reader_interfaces_count.
+
+Theorem C16_reader_inner_classes : forall bytes t l, read_class_tree bytes = Done t -> t_inner_flags t = Some l ->
+  count_ok l && forallb u16ok l = true.
+Proof. exact reader_inner_classes. Qed.
+Print Assumptions C16_reader_inner_classes.
+
+Theorem C16_reader_module : forall bytes t m, read_class_tree bytes = Done t -> t_module t = Some m -> rmodule_ok m = true.
+Proof. exact reader_module. Qed.
+Print Assumptions C16_reader_module.
+
+Theorem C16_reader_fields : forall bytes t, read_class_tree bytes = Done t ->
+  count_ok (t_fields t) && forallb (fun f => u16ok (rf_access f)) (t_fields t) = true.
+Proof. exact reader_fields. Qed.
+Print Assumptions C16_reader_fields.
+
+Theorem C16_reader_methods_count : forall bytes t, read_class_tree bytes = Done t -> count_ok (t_methods t) = true.
+Proof. exact reader_methods_count. Qed.
+Print Assumptions C16_reader_methods_count.
+
+Theorem C16_reader_method_access : forall bytes t m, read_class_tree bytes = Done t -> In m (t_methods t) -> u16ok (rm_access m) = true.
+Proof. exact reader_method_access. Qed.
+Print Assumptions C16_reader_method_access.
+
+(* max_stack / max_locals are present (and u16) whenever Code is; exception table, line numbers, local variable indices *)
+Theorem C16_reader_method_code : forall bytes t m c, read_class_tree bytes = Done t -> In m (t_methods t) -> ma_code (rm_attrs m) = Some c ->
+  u16ok (rc_max_stack c) && u16ok (rc_max_locals c) = true
+  /\ count_ok (rc_handlers c) && forallb u16ok (rc_handlers c) = true
+  /\ forallb u16ok (rc_lines c) = true /\ forallb u16ok (rc_lvidx c) = true.
+Proof. exact reader_method_code. Qed.
+Print Assumptions C16_reader_method_code.
+
+Theorem C16_reader_method_exceptions : forall bytes t m l, read_class_tree bytes = Done t -> In m (t_methods t) ->
+  ma_exceptions (rm_attrs m) = Some l -> count_ok l && forallb u16ok l = true.
+Proof. exact reader_method_exceptions. Qed.
+Print Assumptions C16_reader_method_exceptions.
+
+Theorem C16_reader_method_parameters : forall bytes t m l, read_class_tree bytes = Done t -> In m (t_methods t) ->
+  ma_parameters (rm_attrs m) = Some l -> count8_ok l && forallb u16ok l = true.
+Proof. exact reader_method_parameters. Qed.
+Print Assumptions C16_reader_method_parameters.
+
+(* non-vacuity: the trees of two real class files (computed), a truncated file, and two trees rtree_ok refuses *)
+Theorem C16_reader_tree_fixtures : tree_fixtures_read.
+Proof. exact tree_fixtures_read_hold. Qed.
+Print Assumptions C16_reader_tree_fixtures.
